@@ -26,6 +26,15 @@ wave 3 : calling context and configuration: (PAR) batches of dense end-to-end ca
          matrix for every team size and every content of the uninitialised allocation; the orphaned variant does not);
          (kw) keywords left at their defaults, OMP_THREAD_LIMIT below OMP_NUM_THREADS; (huge) finite magnitudes whose
          squares overflow: exception or matrix, never an abort.
+wave 4 : (rng) the RANGE the samples come in and the CALLBACKS the values come through: every end-to-end case that met the
+         specification is repeated through tapkee::with(..).embedRange(begin,end) (+ the internal routines) on the same
+         sequence of samples held in a std::vector sub-range, a std::deque (whole, N >= 130, and a sub-range laid across a
+         block boundary), a strided and a reversing random-access adaptor over a buffer with decoys in between, with the
+         hand-written table callbacks, tapkee::precomputed_*_callback and tapkee::eigen_*_callback; the range denotes ids
+         into a LARGER table with decoy samples (unsorted / sorted / identity); id sequences with REPEATED ids (sorted with
+         as many entries as the table has samples, unsorted, longer, shorter); judged on the sequence the range denotes:
+         bit-for-bit the plain call on the denoted table (which went through the extracted specification), else model
+         comparison + extracted factor specification.  Exact stream twins (RNG dm / km) against the Qc model.
 wave 2 : (a) SCALED COPIES of every end-to-end case (table * 2^e, e in {-40,-30,-20,20,40}): factor_spec with tolerances
              relative to |B| and the exact relation Y(2^e D) = 2^e Y(D) (Mds_scale_equivariance); exact stream on dyadic
              tiny / huge scales;
@@ -483,6 +492,8 @@ def gen_e2e(rng, quick, count, nmax):
                 d = rng.randint(1, n - 1)
                 rank = None
             c.update(table=T, n=n, d=max(1, min(d, n - 1)), rank=rank, meth="kpca")
+            if kind == "kpca_lin":
+                c["points"] = P
         elif kind == "isomap":
             n = max(n, 4)
             r = rng.randint(1, min(3, n - 2))
@@ -494,6 +505,7 @@ def gen_e2e(rng, quick, count, nmax):
             else:
                 P = rand_points(rng, n, r, 10)
                 T = dist_table(P)
+                c["points"] = P
             d = min(r, n - 1)
             c.update(table=T, n=n, d=d, rank=r, euclid=True, meth="isomap", k=n - 1)
         if big and c["d"] > 6 and c["gen"] != "simplex":
@@ -642,17 +654,25 @@ def plan_scaled(chunk, counter, quick):
     return out
 
 
+def range_key(rg):
+    return None if rg is None else [rg["cont"], rg["cb"], rg["ids"], rg["m"], rg["f"], hexrow(sum(rg["big"], []))]
+
+
 def case_key(c):
     if "datasets" in c:
         return hashlib.sha1(json.dumps([c.get("stream"), c.get("levels"), c.get("thread_limit"), c.get("variant"),
+                                        range_key(c.get("range")),
                                         [case_key(d) for d in c["datasets"]]]).encode()).hexdigest()
     return hashlib.sha1(json.dumps([c.get("stream"), c.get("cmd"), c.get("meth"), c.get("solver"), c.get("n"),
-                                    c.get("d"), c.get("k"), hexrow(sum(c["table"], []))]).encode()).hexdigest()
+                                    c.get("d"), c.get("k"), range_key(c.get("range")),
+                                    hexrow(sum(c["table"], []))]).encode()).hexdigest()
 
 
 def slim(c):
     """JSON-serialisable replay form of a case (exact numbers as hex floats)"""
-    out = {k: v for k, v in c.items() if k not in ("table", "points", "datasets") and not k.startswith("_")}
+    out = {k: v for k, v in c.items() if k not in ("table", "points", "datasets", "range") and not k.startswith("_")}
+    if c.get("range") is not None:
+        out["range"] = dict(c["range"], big=[hexrow(r) for r in c["range"]["big"]])
     if "datasets" in c:
         out["datasets"] = [slim(d) for d in c["datasets"]]
     else:
@@ -662,6 +682,9 @@ def slim(c):
 
 def unslim(c):
     c = dict(c)
+    if c.get("range") is not None:
+        c["range"] = dict(c["range"], big=[[float.fromhex(x) if isinstance(x, str) else float(x) for x in r]
+                                           for r in c["range"]["big"]])
     if "datasets" in c:
         c["datasets"] = [unslim(d) for d in c["datasets"]]
     else:
@@ -677,12 +700,235 @@ def tab_q(T):
     return " ".join(qstr(Fraction(float(x))) for r in T for x in r)
 
 
+# ----------------------------------------------------------------------------- wave 4: ranges and callbacks
+# The interface takes "a random access iterator with no specific capabilities" and any callbacks with the documented
+# members; the property is about the SEQUENCE OF SAMPLES the range denotes and the values the callbacks return on it.
+RANGE_CONTS = ["vector", "vectormid", "deque", "dequemid", "strided", "reversed"]
+RANGE_CBS = ["table", "precomputed", "eigen"]
+RANGE_COMBOS = [(ct, cb) for ct in RANGE_CONTS for cb in RANGE_CBS]
+CONT_TEXT = {
+    "vector": "a std::vector",
+    "vectormid": "a sub-range of a longer std::vector (decoy ids before and after)",
+    "deque": "a std::deque (the whole container)",
+    "dequemid": "a sub-range of a longer std::deque, laid across a block boundary (decoy ids elsewhere)",
+    "strided": "every third entry of a buffer (random-access adaptor iterator, decoy ids in between)",
+    "reversed": "every second entry of a buffer read backwards (random-access adaptor iterator, decoy ids in between)",
+}
+CB_TEXT = {
+    "table": "hand-written table callbacks",
+    "precomputed": "tapkee::precomputed_kernel_callback / precomputed_distance_callback",
+    "eigen": "tapkee::eigen_kernel_callback / eigen_distance_callback over the feature matrix",
+}
+
+
+def all_int(P):
+    return P is not None and all(float(x) == int(x) and abs(x) < 2 ** 40 for row in P for x in row)
+
+
+def embed_in_big(rng, table, n, ids_kind, points=None):
+    """a table of m >= n samples (m*m callback table, or f x m feature matrix when points are given) and ids with
+    big[ids[p]][ids[q]] == table[p][q] (features: column ids[p] == points[p]); the other samples are decoys"""
+    if ids_kind == "identity":
+        m, ids = n, list(range(n))
+    else:
+        m = n + rng.randint(2, 5)
+        ids = rng.sample(range(m), n)
+        if ids_kind == "sorted":
+            ids.sort()
+    if points is not None:
+        f = len(points[0])
+        lo = min(x for row in points for x in row)
+        hi = max(x for row in points for x in row)
+        cols = [[float(rng.randint(int(lo) - 2, int(hi) + 2)) for _ in range(f)] for _ in range(m)]
+        for p, a in enumerate(ids):
+            cols[a] = [float(x) for x in points[p]]
+        return {"ids": ids, "m": m, "f": f, "big": [[cols[a][t] for a in range(m)] for t in range(f)]}
+    flat = [x for row in table for x in row]
+    big = [[0.0] * m for _ in range(m)]
+    for a in range(m):
+        for b in range(a, m):
+            v = rng.choice(flat) if a != b else table[0][0]
+            big[a][b] = big[b][a] = v
+    for p, a in enumerate(ids):
+        for q, b in enumerate(ids):
+            big[a][b] = table[p][q]
+    return {"ids": ids, "m": m, "f": 0, "big": big}
+
+
+def rng_line(rg, meth, solver, seed, n, d, k):
+    return "RNG %s %s %s %s %d %d %d %d %d %d %s %s" % (
+        rg["cont"], rg["cb"], meth, solver, seed, n, d, k, rg["m"], rg["f"], " ".join(str(x) for x in rg["ids"]),
+        tab_tokens(rg["big"]))
+
+
+def range_text(rg):
+    ids = rg["ids"]
+    return ("on the same sequence of samples held in %s, values through %s (the range denotes sample ids %s%s of a table of "
+            "%d samples)" % (CONT_TEXT[rg["cont"]], CB_TEXT[rg["cb"]], ids[:12], "..." if len(ids) > 12 else "", rg["m"]))
+
+
+def range_gen_name(rg, kind):
+    return "range/%s/%s/ids=%s" % (rg["cont"], rg["cb"], kind)
+
+
+def range_eligible(c):
+    res = c.get("_res") or {}
+    return (c.get("stream") == "e2e" and not c.get("scale_exp") and res.get("status") == "ok" and res.get("spec_ok")
+            and "embtok" in res and c["meth"] in ("mds", "kpca", "isomap") and c["n"] <= 32)
+
+
+def plan_ranges(chunk, counter, quick, rrng):
+    """one (container, callback, id pattern) variant per eligible end-to-end case (thorough: two), cycling through the
+    18 (container, callback) pairs and three id patterns"""
+    out = []
+    for c in chunk:
+        if not range_eligible(c):
+            continue
+        for _ in range(1 if quick else 2):
+            t = counter[0]
+            counter[0] += 1
+            cont, cb = RANGE_COMBOS[t % len(RANGE_COMBOS)]
+            kind = ["unsorted", "sorted", "identity"][(t // len(RANGE_COMBOS) + t) % 3]
+            pts = c.get("points")
+            if cb == "eigen" and not (all_int(pts) and c["meth"] in ("mds", "kpca", "isomap")
+                                      and c["gen"].split("@")[0] in EIGEN_GENS):
+                cb = ["table", "precomputed"][t % 2]
+                pts = None
+            rg = embed_in_big(rrng, c["table"], c["n"], kind, pts if cb == "eigen" else None)
+            rg.update(cont=cont, cb=cb)
+            out.append({"stream": "rng", "range": rg, "datasets": [c], "n": c["n"], "gen": range_gen_name(rg, kind)})
+    return out
+
+
+# generators whose table is exactly dist_table / gram_table of the integer points they keep
+EIGEN_GENS = ("euclid_eq", "euclid_lt", "euclid_gt", "offset", "dupes", "kpca_lin", "isomap", "repeat_ids", "big_deque")
+
+
+def gen_repeat(rng, count):
+    """id sequences with REPEATED ids into a table of m samples: sorted with exactly m entries, first id 0 and last id
+    m-1 (a sorted bootstrap resample: looks like the identity to a careless guard), unsorted, longer than the table,
+    shorter.  The denoted sequence has coincident samples; the table is Euclidean of rank r = target_dimension."""
+    out = []
+    patterns = ["sorted_same_len", "unsorted_same_len", "sorted_same_len", "longer", "shorter_sorted", "longer_sorted"]
+    for t in range(count):
+        m = rng.choice([5, 6, 7, 8, 10])
+        r = min(rng.choice([1, 2, 2, 3]), m - 3)
+        P = rand_points(rng, m, r, rng.choice([3, 10]))
+        pat = patterns[t % len(patterns)]
+        if pat == "sorted_same_len":
+            ids = list(range(m))
+            for _ in range(rng.choice([1, 1, 2])):
+                j = rng.randint(1, m - 2)
+                ids[j] = ids[j - 1] if rng.random() < 0.5 else ids[j + 1]
+            ids.sort()
+        elif pat == "unsorted_same_len":
+            ids = [rng.randrange(m) for _ in range(m)]
+            ids[rng.randrange(1, m)] = ids[0]
+        elif pat in ("longer", "longer_sorted"):
+            ids = [rng.randrange(m) for _ in range(m + rng.randint(1, 3))]
+            if pat == "longer_sorted":
+                ids.sort()
+        else:
+            ids = sorted(rng.randrange(m) for _ in range(m - 1))
+            ids[1] = ids[0]
+            ids.sort()
+        n = len(ids)
+        meth = ["mds", "mds", "kpca", "mds", "isomap", "kpca"][(t // 2) % 6]
+        T = gram_table(P) if meth == "kpca" else dist_table(P)
+        Teff = [[T[a][b] for b in ids] for a in ids]
+        solver = "randomized" if t % 4 == 3 else "dense"
+        c = {"stream": "e2e", "gen": "repeat_ids/" + pat, "meth": meth, "solver": solver, "seed": rng.randrange(1, 10 ** 6),
+             "n": n, "d": r, "k": n - 1 if meth == "isomap" else 0, "table": Teff, "rank": r, "euclid": meth != "kpca",
+             "points": [P[a] for a in ids]}
+        combos = [("vector", "precomputed"), RANGE_COMBOS[(5 * t + 1) % len(RANGE_COMBOS)],
+                  RANGE_COMBOS[(5 * t + 8) % len(RANGE_COMBOS)]]
+        for cont, cb in dict.fromkeys(combos):
+            if cb == "eigen":
+                rg = {"ids": ids, "m": m, "f": r, "big": [[float(P[a][u]) for a in range(m)] for u in range(r)]}
+            else:
+                rg = {"ids": ids, "m": m, "f": 0, "big": T}
+            rg.update(cont=cont, cb=cb)
+            out.append({"stream": "rng", "range": rg, "datasets": [c], "n": n, "gen": range_gen_name(rg, "repeated/" + pat)})
+    return out
+
+
+def gen_big_deque(rng, count):
+    """a std::deque<int> keeps 128 ids per block: N >= 130 samples in a whole deque are not contiguous.  Integer tables
+    (collinear integer points for MDS / Isomap, Gram matrix of 2-D integer points for Kernel PCA) keep the exact
+    rational arithmetic of the extracted model cheap at this size."""
+    out = []
+    for t in range(count):
+        n = rng.randint(130, 133)
+        meth = ["mds", "kpca", "isomap", "mds"][t % 4]
+        r = 2 if meth == "kpca" else 1
+        if meth == "isomap":
+            xs = rng.sample(range(-200, 200), n)            # distinct: every shortest path is the direct distance
+            P = [[x] for x in xs]
+        else:
+            P = rand_points(rng, n, r, 40)
+        T = gram_table(P) if meth == "kpca" else dist_table(P)
+        c = {"stream": "e2e", "gen": "big_deque", "meth": meth, "solver": "randomized" if t % 4 == 3 else "dense",
+             "seed": rng.randrange(1, 10 ** 6), "n": n, "d": r, "k": n - 1 if meth == "isomap" else 0, "table": T,
+             "rank": r, "euclid": meth != "kpca", "points": P}
+        for j, cb in enumerate(RANGE_CBS):
+            kind = ["identity", "unsorted", "sorted"][(t + j) % 3]
+            rg = embed_in_big(rng, T, n, kind, P if cb == "eigen" else None)
+            rg.update(cont="deque", cb=cb)
+            out.append({"stream": "rng", "range": rg, "datasets": [c], "n": n, "gen": range_gen_name(rg, kind)})
+    return out
+
+
+def gen_exact_ranges(rng, exact_cases, big):
+    """twins of the exact-stream DM / KM cases on a range (bit for bit against the Qc model of the denoted table), every
+    fourth one with repeated ids; + `big` whole-deque cases with N = 256 samples (two deque blocks; power of two)"""
+    out = []
+    src = [c for c in exact_cases if c["stream"] == "exact" and c["cmd"] in ("DM", "KM")]
+    for t, c in enumerate(src):
+        cont, cb = RANGE_COMBOS[(7 * t) % len(RANGE_COMBOS)]
+        if cb == "eigen":
+            cb = "precomputed" if t % 2 else "table"
+        n, T = c["n"], c["table"]
+        if t % 4 == 3 and n >= 4:
+            ids = sorted(rng.randrange(n) for _ in range(n)) if t % 8 == 3 else [rng.randrange(n) for _ in range(n + 2)]
+            if t % 8 == 3:
+                ids[0], ids[-1] = 0, n - 1
+                ids[2] = ids[1]
+                ids.sort()
+            if len(ids) not in (2, 4, 8, 16):
+                ids = ids[:n]
+            rg = {"ids": ids, "m": n, "f": 0, "big": T}
+            Teff = [[T[a][b] for b in ids] for a in ids]
+            kind = "repeated"
+        else:
+            kind = ["unsorted", "sorted", "identity"][t % 3]
+            rg = embed_in_big(rng, T, n, kind)
+            Teff = T
+        rg.update(cont=cont, cb=cb)
+        out.append({"stream": "exact", "cmd": c["cmd"], "n": len(rg["ids"]), "table": Teff, "sym": c["sym"], "range": rg,
+                    "gen": c["gen"] + "/" + range_gen_name(rg, kind)})
+    for t in range(big):
+        n = 256
+        xs = [rng.randint(-8, 8) for _ in range(n)]
+        cmd = "DM" if t % 2 == 0 else "KM"
+        T = [[float(abs(a - b)) if cmd == "DM" else float(a * b) for b in xs] for a in xs]
+        cb = RANGE_CBS[t % 3]
+        rg = {"ids": list(range(n)), "m": n, "f": 0, "big": T} if cb != "eigen" else \
+            {"ids": list(range(n)), "m": n, "f": 1, "big": [[float(x) for x in xs]]}
+        rg.update(cont="deque", cb=cb)
+        # sym False: the O(n^3) extracted J M J object is not evaluated at this size (the step model is)
+        out.append({"stream": "exact", "cmd": cmd, "n": n, "table": T, "sym": False, "range": rg,
+                    "gen": "exact_%s_big_deque/%s" % (cmd, range_gen_name(rg, "identity"))})
+    return out
+
+
 # ----------------------------------------------------------------------------- evaluation: matrix stage
 def eval_matrix_stage(ctx, exe, mexe, cases, stats):
     """exact / generic streams: the matrix handed to the solver vs model and vs mathematical object"""
     if not cases:
         return 0
-    impl = run_impl(ctx, exe, ["%s %d %s" % (c["cmd"], c["n"], tab_tokens(c["table"])) for c in cases])
+    impl = run_impl(ctx, exe, [("%s %d %s" % (c["cmd"], c["n"], tab_tokens(c["table"]))) if c.get("range") is None else
+                               rng_line(c["range"], {"DM": "dm", "KM": "km"}[c["cmd"]], "dense", 1, c["n"], 1, 0)
+                               for c in cases])
     mlines, midx = [], []
     for i, c in enumerate(cases):
         tq = tab_q(c["table"])
@@ -701,11 +947,14 @@ def eval_matrix_stage(ctx, exe, mexe, cases, stats):
     for i, (c, r) in enumerate(zip(cases, impl)):
         if r.skipped:
             continue
+        where = "" if c.get("range") is None else " (called %s)" % range_text(c["range"])
+        if c.get("range") is not None:
+            stats["matrix_stage_ranges"] = stats.get("matrix_stage_ranges", 0) + 1
         if r.crashed:
-            ctx.violation(slim(c), "the matrix-assembly routines abort on this table: " + str(r.why)[:500])
+            ctx.violation(slim(c), "the matrix-assembly routines abort on this table%s: %s" % (where, short_why(r.why)))
             continue
         if r.X is not None or r.garbage:
-            ctx.violation(slim(c), "matrix-assembly routines threw / printed garbage: %s" % r.X)
+            ctx.violation(slim(c), "matrix-assembly routines threw / printed garbage%s: %s" % (where, r.X))
             continue
         pairs = {"DM": [("d2", "D2"), ("mds", "MDS")], "KM": [("kpca", "KPCA")], "CM": [("center", "CENTER")]}[c["cmd"]]
         exact = c["stream"] == "exact"
@@ -741,14 +990,21 @@ def eval_matrix_stage(ctx, exe, mexe, cases, stats):
                 if sbad:
                     a, b = sbad
                     ctx.violation(slim(c), "matrix handed to the solver differs from %s at (%d,%d): got %s, "
-                                  "mathematical object %s" % (
+                                  "mathematical object %s%s" % (
                                       "-1/2 J D2 J" if wcmd == "MDS" else "J K J", a, b,
-                                      None if G[a][b] is None else float(G[a][b]), float(S[a][b])))
+                                      None if G[a][b] is None else float(G[a][b]), float(S[a][b]), where))
                 stats["spec_matrix_checks"] += 1
             if bad:
                 a, b = bad
-                ctx.mismatch(slim(c), "%s(%d,%d): model %s vs implementation %s" % (
-                    tag, a, b, float(exp[a][b]), None if G[a][b] is None else float(G[a][b])))
+                ctx.mismatch(slim(c), "%s(%d,%d): model %s vs implementation %s%s" % (
+                    tag, a, b, float(exp[a][b]), None if G[a][b] is None else float(G[a][b]), where))
+                if c.get("range") is not None and not (spec_key and (i, spec_key) in model) and wcmd in ("MDS", "KPCA"):
+                    # no extracted J M J object at this size / for this (asymmetric) table: the step model of the DENOTED
+                    # table is the reference (proved equal to the object on symmetric tables)
+                    ctx.violation(slim(c), "matrix handed to the solver differs from the model of %s on the table the range "
+                                  "denotes at (%d,%d): got %s, model %s%s" % (
+                                      "-1/2 J D2 J" if wcmd == "MDS" else "J K J", a, b,
+                                      None if G[a][b] is None else float(G[a][b]), float(exp[a][b]), where))
         stats["matrix_stage"] += 1
     return len(cases)
 
@@ -1026,7 +1282,7 @@ def eval_e2e(ctx, exe, mexe, cases, tab, stats, report=True):
                     stats["gs_cutoff_fired"] = stats.get("gs_cutoff_fired", 0) + 1
             else:
                 ctx.mismatch(slim(c), "harness: the Gaussian test matrix of the randomized solver is missing / malformed")
-        c["_res"] = {"status": "bad", "smin": smin, "fired": fired, "lmax": lmax}
+        c["_res"] = {"status": "bad", "smin": smin, "fired": fired, "lmax": lmax, "kappa_gs": kappa_gs}
         # ---- the embedding
         if r.X is not None:
             if c["solver"] == "randomized" and "eigendecomposition" in r.X and (fired or ambiguous or (fired is None and rank < d)):
@@ -1285,6 +1541,8 @@ def model_B_line(d):
 
 
 def context_text(b, r=None):
+    if b["stream"] == "rng":
+        return "called through tapkee::with(...).embedRange(begin, end) " + range_text(b["range"])
     if b["stream"] == "par":
         return ("called from inside the application's `#pragma omp parallel for num_threads(%d)` region, one data set per "
                 "thread (omp_set_max_active_levels(%d), OMP_THREAD_LIMIT %s, OMP_NUM_THREADS 2%s)" % (
@@ -1317,6 +1575,9 @@ def eval_variants_inner(ctx, exe, mexe, tab, batches, stats):
             if b["stream"] == "par":
                 lines.append("PAR %d %d %d %s" % (b["levels"], b["threads"], len(b["datasets"]), " ".join(
                     "%s %d %d %d %s" % (d["meth"], d["d"], d["k"], d["n"], tab_tokens(d["table"])) for d in b["datasets"])))
+            elif b["stream"] == "rng":
+                d = b["datasets"][0]
+                lines.append(rng_line(b["range"], d["meth"], d["solver"], d["seed"], d["n"], d["d"], d["k"]))
             else:
                 d = b["datasets"][0]
                 lines.append("EMB %s %s %d %d %d %d %s" % (
@@ -1332,6 +1593,14 @@ def eval_variants_inner(ctx, exe, mexe, tab, batches, stats):
             continue
         par = b["stream"] == "par"
         stats["variant_" + b["stream"]] = stats.get("variant_" + b["stream"], 0) + 1
+        if b["stream"] == "rng":
+            key = "%s/%s" % (b["range"]["cont"], b["range"]["cb"])
+            combos = stats.setdefault("rng_combos", {})
+            combos[key] = combos.get(key, 0) + 1
+            if "dequebreaks" in r.P and r.P["dequebreaks"].strip() not in ("", "0"):
+                stats["rng_deque_noncontiguous"] = stats.get("rng_deque_noncontiguous", 0) + 1
+            if len(set(b["range"]["ids"])) < len(b["range"]["ids"]):
+                stats["rng_repeated_ids"] = stats.get("rng_repeated_ids", 0) + 1
         if r.crashed:
             found.append((bi, 0, "tapkee::embed %s aborts / hangs: %s" % (context_text(b), short_why(r.why))))
             continue
@@ -1364,7 +1633,7 @@ def eval_variants_inner(ctx, exe, mexe, tab, batches, stats):
                 if r.X is not None:
                     found.append((bi, di, "%s: tapkee::embed throws (%s) when %s" % (what, r.X, context_text(b, r))))
                     continue
-                tagB, tagE = None, "emb"
+                tagB, tagE = ("B" if b["stream"] == "rng" else None), "emb"
             E = r.mat(tagE)
             if r.garbage or E is None or (E[0], E[1]) != (n, dd) or (tagB and (r.mat(tagB) is None or
                                                                              (r.mat(tagB)[0], r.mat(tagB)[1]) != (n, n))):
@@ -1411,7 +1680,8 @@ def eval_variants_inner(ctx, exe, mexe, tab, batches, stats):
             else:
                 stats["variant_B_within_tolerance"] = stats.get("variant_B_within_tolerance", 0) + 1
         else:
-            line, tau, _ = factor_line("dense", n, dd, Bm, M, res["top"], res["lmax"])
+            line, tau, _ = factor_line(d.get("solver", "dense") if b["stream"] == "rng" else "dense", n, dd, Bm, M,
+                                       res["top"], res["lmax"], res.get("kappa_gs") if b["stream"] == "rng" else None)
             second.append((bi, di, line, tau, M))
     out = run_model(ctx, mexe, [x[2] for x in second])
     for (bi, di, _, tau, M), o in zip(second, out):
@@ -1437,7 +1707,12 @@ def eval_variants(ctx, exe, mexe, tab, batches, stats, report=True):
     without results: those are evaluated first (plain serial call through the whole end-to-end pipeline)."""
     if not batches:
         return 0
-    pre = [d for b in batches for d in b["datasets"] if "_res" not in d]
+    pre, seen_ds = [], set()
+    for b in batches:
+        for d in b["datasets"]:
+            if "_res" not in d and id(d) not in seen_ds:       # range variants share their data set
+                seen_ds.add(id(d))
+                pre.append(d)
     if pre:
         for d in pre:
             d.setdefault("stream", "e2e")
@@ -1697,7 +1972,9 @@ def evaluate_all(ctx, exe, mexe, tab, cases, stats, shrink=True, scale=True):
     n += eval_rgs(ctx, exe, mexe, [c for c in cases if c["stream"] == "rgs"], stats)
     n += eval_huge(ctx, exe, mexe, [c for c in cases if c["stream"] == "huge"], stats)
     # replays / corpus entries that are calling-context or keyword variants
-    n += eval_variants(ctx, exe, mexe, tab, [c for c in cases if c["stream"] in ("par", "kw")], stats, report=True)
+    n += eval_variants(ctx, exe, mexe, tab, [c for c in cases if c["stream"] in ("par", "kw", "rng")], stats, report=True)
+    rrng = vlib.random.Random(ctx.seed * 7919 + 4)
+    rcounter = [ctx.seed % len(RANGE_COMBOS)]
     e2e = [c for c in cases if c["stream"] == "e2e"]
 
     def run_chunk(chunk):
@@ -1731,6 +2008,8 @@ def evaluate_all(ctx, exe, mexe, tab, cases, stats, shrink=True, scale=True):
                 n += run_chunk(sc[j:j + 120])
             # the same requests from inside an application's parallel region / with keywords left at their defaults
             va = plan_variants(chunk, vcounter, ctx.quick)
+            # ... and on the same samples in other containers, through other callbacks, as ids into a larger table
+            va += plan_ranges(chunk, rcounter, ctx.quick, rrng)
             extra += va
             n += eval_variants(ctx, exe, mexe, tab, va, stats, report=True)
     for i in range(0, len(given), 60):
@@ -1770,6 +2049,9 @@ def run(ctx):
     cases += gen_rgs(rng, 10 if quick else 80)
     cases += gen_huge(rng, 27 if quick else 108)
     cases += gen_e2e(rng, quick, 96 if quick else 448, 24 if quick else 48)
+    cases += gen_repeat(rng, 18 if quick else 72)
+    cases += gen_big_deque(rng, 2 if quick else 8)
+    cases += gen_exact_ranges(rng, cases, 1 if quick else 3)
     n, scaled = evaluate_all(ctx, exe, mexe, tab, cases, stats)
     cases += scaled
     ctx.note("wall: cases %.0fs (extracted model %.0fs, harness %.0fs)" % (ctx.elapsed() - t_ext, TIMES["model"], TIMES["impl"]))
@@ -1793,7 +2075,8 @@ def run(ctx):
         ctx.note("search phase: proof / translator / correspondence no longer checks; looking for a failing input")
         srng = vlib.random.Random(ctx.seed + 1)
         extra = gen_e2e(srng, False, 400 if quick else 2000, 24) + gen_exact(srng, 300) + small_exhaustive()
-        extra += gen_rgs(srng, 40) + gen_huge(srng, 54)
+        extra += gen_rgs(srng, 40) + gen_huge(srng, 54) + gen_repeat(srng, 36) + gen_big_deque(srng, 3)
+        extra += gen_exact_ranges(srng, extra, 1)
         n2, scaled2 = evaluate_all(ctx, exe, mexe, tab, extra, stats)
         n += n2
         cases += extra + scaled2
@@ -1806,7 +2089,8 @@ def run(ctx):
     for c in cases:
         sizes["N=%d" % c["n"]] = sizes.get("N=%d" % c["n"], 0) + 1
     distinct = {case_key(c) for c in cases if (c["stream"] == "e2e" and c["n"] >= 3) or
-                (c["stream"] in ("exact", "generic") and c["n"] >= 4) or c["stream"] in ("tri", "rgs", "par", "kw", "huge")}
+                (c["stream"] in ("exact", "generic") and c["n"] >= 4) or
+                c["stream"] in ("tri", "rgs", "par", "kw", "huge", "rng")}
     samples = [slim(c) for c in (cases[:1] + [c for c in cases if c["stream"] == "e2e"][:3]) if c["n"] <= 8][:4]
     ctx.finish(
         evaluations=n, distinct_nontrivial=len(distinct),
